@@ -2,6 +2,7 @@
 
 import typing
 import typing as t
+from unicodedata import normalize
 
 from . import nodes
 from .exceptions import TemplateAssertionError
@@ -43,6 +44,11 @@ _math_nodes: dict[str, type[nodes.Expr]] = {
     "floordiv": nodes.FloorDiv,
     "mod": nodes.Mod,
 }
+
+
+def _py_name(name: str) -> str:
+    """The identifier as the Python compiler sees it in generated code."""
+    return normalize("NFKC", name)
 
 
 class Parser:
@@ -408,7 +414,7 @@ class Parser:
                 self.stream.expect("comma")
             arg = self.parse_assign_target(name_only=True)
             arg.set_ctx("param")
-            if any(arg.name == other.name for other in args):
+            if any(_py_name(arg.name) == _py_name(other.name) for other in args):
                 self.fail(f"duplicate argument {arg.name!r} in signature", arg.lineno)
             if self.stream.skip_if("assign"):
                 defaults.append(self.parse_expression())
@@ -913,7 +919,7 @@ class Parser:
                     # Parsing a kwarg
                     ensure(dyn_kwargs is None)
                     key = self.stream.current.value
-                    if any(key == kwarg.key for kwarg in kwargs):
+                    if any(_py_name(key) == _py_name(kwarg.key) for kwarg in kwargs):
                         self.fail(
                             f"keyword argument {key!r} repeated",
                             self.stream.current.lineno,
